@@ -554,3 +554,10 @@ package base
 //@   transparent
 //@   ensures[C24] result == frame + "\x00" + class + "\x00" + method
 //@   ensures[C24] forall(f2, "string", forall(c2, "string", forall(m2, "string", !strings.Contains(frame, "\x00") && !strings.Contains(class, "\x00") && !strings.Contains(f2, "\x00") && !strings.Contains(c2, "\x00") && result == f2 + "\x00" + c2 + "\x00" + m2 ==> f2 == frame && c2 == class && m2 == method)))
+
+// C09: storing a key/value entry in a hash type leaves the hash with an entry for that key that
+// holds exactly the given value type (a re-stored key is overwritten whatever the old value was;
+// a new key is appended)
+//@ func (*ti/base.T).AppendHashVariant
+//@   transparent
+//@   ensures[C09] whole(t) ==> exists(i, 0 <= i && i < len(t.variants) && t.variants[i].key == keyvalueT.key && t.variants[i].val == keyvalueT.val && t.variants[i].tType == keyvalueT.tType)
